@@ -33,7 +33,7 @@ m = {
                  "kind_free_text": "repository-specific static analyser over go/types + go/ssa + VTA call graph (x/tools v0.29.0): who-may-call/write, CFG gates and orderings, path-sensitive ordering dataflow, lockset, goroutine confinement, reply typestate, codec grammar symmetry"}],
     "checks": checks,
     "not_applicable": [{"property_id": k, "reason": v} for k, v in sorted(NOT_APPLICABLE.items())],
-    "notes": "All claims are level 'other': each check decides structural necessary conditions of its property for every path of the program text and says so; the behavioural property as a whole (histories, schedules, crash images) is outside static analysis. Exit 2 (UNDECIDED) means the checker could not see what it needs and must be read as a broken check, never as 'held'. Fixed genuine defects and known findings: known_findings.json (30 repaired defects F1–F30 with "fix:" commits in /repo; one recorded finding K1, printed as KNOWN-FINDING by the C10 check), DESIGN.md §10.3.",
+    "notes": "All claims are level 'other': each check decides structural necessary conditions of its property for every path of the program text and says so; the behavioural property as a whole (histories, schedules, crash images) is outside static analysis. Exit 2 (UNDECIDED) means the checker could not see what it needs and must be read as a broken check, never as 'held'. Fixed genuine defects and known findings: known_findings.json (30 repaired defects F1–F30 with 'fix:' commits in /repo; one recorded finding K1, printed as KNOWN-FINDING by the C10 check), DESIGN.md §10.3.",
 }
 json.dump(m, open(os.path.join(V, "MANIFEST.json"), "w"), indent=1)
 print("wrote MANIFEST.json with", len(checks), "checks,", len(NOT_APPLICABLE), "not applicable")
